@@ -638,9 +638,11 @@ impl Tokenizer {
             offsets.extend(second_seq_offsets);
         }
 
+        // If there is no limit, use a window that is larger than any input so
+        // that the whole input forms one chunk, whatever the `overlap` is.
         let max_tokens_per_chunk = options
             .max_chunk_len
-            .unwrap_or(tokens.len() + non_content_tokens_per_chunk)
+            .unwrap_or(usize::MAX)
             .saturating_sub(non_content_tokens_per_chunk);
 
         if max_tokens_per_chunk == 0 {
@@ -702,7 +704,12 @@ impl Tokenizer {
                 let (first_offsets, second_offsets) = offsets.split_at(first_seq_tokens);
 
                 let first_len = first_tokens.len().min(max_tokens_per_chunk);
-                let second_len = second_tokens.len().min(max_tokens_per_chunk - first_len);
+                // Space available for tokens from the second sequence. This
+                // is the window size, even if the second sequence is shorter,
+                // so that whether `overlap` is valid doesn't depend on the
+                // input's length.
+                let second_max_len = max_tokens_per_chunk - first_len;
+                let second_len = second_tokens.len().min(second_max_len);
 
                 if second_len == 0 {
                     // We can't "consume" tokens from the second sequence in
@@ -711,8 +718,8 @@ impl Tokenizer {
                 }
 
                 for (chunk_idx, (tokens_chunk, offsets_chunk)) in second_tokens
-                    .chunks_with_overlap(second_len, options.overlap)
-                    .zip(second_offsets.chunks_with_overlap(second_len, options.overlap))
+                    .chunks_with_overlap(second_max_len, options.overlap)
+                    .zip(second_offsets.chunks_with_overlap(second_max_len, options.overlap))
                     .enumerate()
                 {
                     let mut tokens = Vec::new();
